@@ -3338,6 +3338,11 @@ class sptensor:
             with np.errstate(divide="ignore", invalid="ignore"):
                 newvals = self.vals / other
             if other == 0:
+                if self.nnz == 0:
+                    nansubs = self.allsubs()
+                    return ttb.sptensor(
+                        nansubs, np.nan * np.ones((nansubs.shape[0], 1)), self.shape
+                    )
                 nansubsidx = tt_setdiff_rows(self.allsubs(), newsubs)
                 nansubs = self.allsubs()[nansubsidx]
                 newsubs = np.vstack((newsubs, nansubs))
@@ -3368,11 +3373,11 @@ class sptensor:
             # Both nonzero
             if self.subs.size > 0 and other.subs.size > 0:
                 idxSelf = tt_intersect_rows(self.subs, other.subs)
-                idxOther = tt_intersect_rows(other.subs, self.subs)
                 newsubs = self.subs[idxSelf, :]
-                newvals = self.vals[idxSelf] / other.vals[idxOther]
+                # Look values up by subscript, stored orders may differ
+                newvals = self.vals[idxSelf] / other.extract(newsubs)
             else:
-                newsubs = np.empty((0, len(self.shape)))
+                newsubs = np.empty((0, len(self.shape)), dtype=int)
                 newvals = np.empty((0, 1))
 
             # Self nonzero and other zero
@@ -3381,7 +3386,7 @@ class sptensor:
                 morevals = np.empty((moresubs.shape[0], 1))
                 morevals.fill(np.nan)
                 if moresubs.size > 0:
-                    newsubs = np.vstack((newsubs, SelfZeroSubs[moresubs, :]))
+                    newsubs = np.vstack((newsubs, self.subs[moresubs, :]))
                     newvals = np.vstack((newvals, morevals))
 
             # other nonzero and self zero
@@ -3390,7 +3395,7 @@ class sptensor:
                 morevals = np.empty((moresubs.shape[0], 1))
                 morevals.fill(0)
                 if moresubs.size > 0:
-                    newsubs = np.vstack((newsubs, OtherZeroSubs[moresubs, :]))
+                    newsubs = np.vstack((newsubs, other.subs[moresubs, :]))
                     newvals = np.vstack((newvals, morevals))
 
             # Both zero
@@ -3404,8 +3409,12 @@ class sptensor:
             return ttb.sptensor(newsubs, newvals, self.shape)
 
         if isinstance(other, ttb.tensor):
+            if self.nnz == 0:
+                return self.copy()
             csubs = self.subs
-            cvals = self.vals / other[csubs][:, None]
+            with np.errstate(divide="ignore", invalid="ignore"):
+                # A single subscript is returned as a scalar
+                cvals = self.vals / np.atleast_1d(other[csubs])[:, None]
             return ttb.sptensor(csubs, cvals, self.shape)
         if isinstance(other, ttb.ktensor):
             # TODO consider removing epsilon and generating nans consistent with above
